@@ -31,8 +31,30 @@ import traceback
 from .core import Op, canon_exc, InfraError, jkey
 
 
+def prefetch(ctx, base, histories):
+    """optional: ask the model for every step of `histories` in one batch (the replies are kept on `ctx` and
+    used by the step judge instead of one request per step)"""
+    cache = ctx.__dict__.setdefault("_history_model_cache", {})
+    todo, seen = [], set()
+    for h in histories:
+        for st in h["seq"]:
+            a = base.to_model(st["inp"])
+            k = (base.model_op, jkey(a))
+            if k not in cache and k not in seen:
+                seen.add(k)
+                todo.append((k, a))
+    for (k, _a), r in zip(todo, ctx.model_many(base.model_op, [a for _k, a in todo])):
+        cache[k] = r
+
+
 def _judge(ctx, base, inp, io):
-    mo = ctx.model(base.model_op, base.to_model(inp))
+    a = base.to_model(inp)
+    cache = getattr(ctx, "_history_model_cache", None)
+    k = (base.model_op, jkey(a)) if cache is not None else None
+    if cache is not None and k in cache:
+        mo = cache[k]
+    else:
+        mo = ctx.model(base.model_op, a)
     if base.holds is not None:
         msg = base.holds(ctx, inp, io)
         if msg:
